@@ -13,6 +13,7 @@ import random
 from kdverif import core, tlc, tracecheck
 
 ITEMS = ["x", "class", "y", "z", "index", "ctx.k"]
+CTX_ITEMS = ("ctx.k", "ctx.k.s")   # the second key contains a dot (as the library's own transforms name their keys)
 LOADERS = ["x", "class", "y", "z"]
 DECLS = [[], [["x", "class"]], [["class", "x"]], [["x", "y", "z"]], [["x", "class"], ["y", "z"]],
          [["y", "z"], ["class", "x"]]]
@@ -52,6 +53,7 @@ def make_classes():
             stale = ctx is not None and any(isinstance(v, Tag) and v[1] != me for v in ctx.values())
             if it == "x" and ctx is not None:
                 ctx["k"] = Tag(("rec", me, c))
+                ctx["k.s"] = Tag(("rec2", me, c))
                 if me % 2 == 1:
                     ctx["odd"] = Tag(("rec", me, c))  # a key only some samples record
             return Tag((it, me, c, bool(stale)))
@@ -71,6 +73,13 @@ def make_classes():
     class PlainW(KDWrapper):
         pass
 
+    class IndexW(KDWrapper):
+        """a wrapper that happens to define getitem_index (e.g. exposing an unfiltered index): the mode item 'index'
+        is the index the sample was requested with, whatever the stack defines"""
+
+        def getitem_index(self, idx, ctx=None):
+            return int(idx) + 1000
+
     def fused_wrapper(groups, delegate=()):
         """a wrapper that declares `groups` as jointly loaded and implements every item + every joint loader itself"""
 
@@ -80,6 +89,7 @@ def make_classes():
                 c = nonce()
                 if "x" in g and ctx is not None:
                     ctx["k"] = Tag(("rec", vals[0][1], c))
+                    ctx["k.s"] = Tag(("rec2", vals[0][1], c))
                 return tuple(Tag((it, v[1], c, any(len(u) > 3 and u[3] for u in vals))) for it, v in zip(g, vals))
 
             return fn
@@ -90,6 +100,7 @@ def make_classes():
                 c = nonce()
                 if it == "x" and ctx is not None:
                     ctx["k"] = Tag(("rec", v[1], c))
+                    ctx["k.s"] = Tag(("rec2", v[1], c))
                 return Tag((it, v[1], c, len(v) > 3 and v[3]))
 
             return fn
@@ -118,12 +129,12 @@ def make_classes():
             c = nonce()
             return tuple(Tag((it, int(idx), c)) for it in LOADERS)
 
-    return TagDS, PlainW, fused_wrapper, TupleDS
+    return TagDS, PlainW, fused_wrapper, TupleDS, IndexW
 
 
 def build_stack(kind, n, decl, r, K):
     """returns (dataset, map, refuseok)"""
-    TagDS, PlainW, fused_wrapper, TupleDS = K
+    TagDS, PlainW, fused_wrapper, TupleDS, IndexW = K
     from kappadata.datasets.kd_subset import KDSubset
     from kappadata.datasets.kd_concat_dataset import KDConcatDataset
     from kappadata.wrappers.torch_wrapper import TorchWrapper
@@ -134,6 +145,8 @@ def build_stack(kind, n, decl, r, K):
         return PlainW(TagDS(n)), ident, False
     if kind == "wrap2":
         return PlainW(PlainW(TagDS(n))), ident, False
+    if kind == "wrap_index":
+        return IndexW(PlainW(TagDS(n))), ident, False
     if kind == "fused":
         return fused_wrapper(decl)(TagDS(n)), ident, False
     if kind == "fused_wrap":
@@ -179,6 +192,8 @@ def decode_sample(raw, n0):
     for v in seq:
         if isinstance(v, Tag) and v[0] == "rec":
             out.append(dict(it="ctx.k", s=v[1], cid=v[2]))
+        elif isinstance(v, Tag) and v[0] == "rec2":
+            out.append(dict(it="ctx.k.s", s=v[1], cid=v[2]))
         elif isinstance(v, Tag):
             out.append(dict(it=v[0], s=v[1], cid=v[2]))
         elif isinstance(v, int):
@@ -267,7 +282,7 @@ def one_trace(tid, kind, mode, decl, rctx, n, r, K, naccess):
 
 
 def in_domain(mode):
-    return all(it != "ctx.k" or "x" in mode[:p] for p, it in enumerate(mode))
+    return all(it not in CTX_ITEMS or "x" in mode[:p] for p, it in enumerate(mode))
 
 
 def run(prop, tier, seed):
@@ -290,7 +305,7 @@ def run(prop, tier, seed):
     tid = 0
     maxlen = 3 if quick else 4
     modes = [list(m) for ln in range(1, maxlen + 1) for m in itertools.product(ITEMS, repeat=ln) if in_domain(m)]
-    plain_kinds = ["base", "wrap", "wrap2", "subset", "subset_wrap", "concat"]
+    plain_kinds = ["base", "wrap", "wrap2", "wrap_index", "subset", "subset_wrap", "concat"]
     fused_kinds = ["fused", "fused_wrap", "wrap_fused", "subset_fused"]
     # the whole grid of (M), each mode on rotating stacks
     for mi, mode in enumerate(modes):
@@ -313,7 +328,7 @@ def run(prop, tier, seed):
     # long random modes, deeper histories, larger datasets
     for _ in range(300 if quick else 3000):
         ln = r.randint(4, 10)
-        mode = [r.choice(ITEMS) for _ in range(ln)]
+        mode = [r.choice(ITEMS + ["ctx.k.s"]) for _ in range(ln)]
         if not in_domain(mode):
             mode = ["x"] + mode
         decl = r.choice(DECLS)
